@@ -1,19 +1,27 @@
 #!/bin/bash
-# Runs the quick check of each seeded change's property against a scratch worktree with the change applied; writes seeded/RESULTS.md
+# seed_matrix.sh [ids...] : runs the quick check of each seeded change's property against a scratch worktree with the change applied
+# (never /repo itself), stores seeded/<id>/result.json and regenerates seeded/RESULTS.md from all result.json files.
 cd /verif
-out=seeded/RESULTS.md
-echo "# Seeded changes vs checks (quick tier, $(date -u +%F)) " > $out.tmp
-echo "" >> $out.tmp
-echo "| seed | property | verdict | first class reported |" >> $out.tmp
-echo "|---|---|---|---|" >> $out.tmp
-for d in seeded/*/; do
-  id=$(basename $d); [ -f $d/patch.diff ] || continue
+ids="$@"; [ -z "$ids" ] && ids=$(ls seeded | grep -E '^C[0-9]{2}[ab]2?$')
+for id in $ids; do
+  d=seeded/$id; [ -f $d/patch.diff ] || continue
   prop=$(python3 -c "import json; print(json.load(open('$d/meta.json')).get('property','${id:0:3}'))" 2>/dev/null || echo ${id:0:3})
   res=$(./tools/try_seed.sh $PWD/$d/patch.diff $prop quick 2>&1)
   rc=$(echo "$res" | grep -o "exit=[0-9]*" | tail -1)
-  cls=$(echo "$res" | grep "class=" | head -1 | sed 's/^ *//; s/|/\\|/g' | cut -c1-160)
+  cls=$(echo "$res" | grep "class=" | head -1 | sed 's/^ *//' | cut -c1-200)
   case "$rc" in exit=1) v="caught";; exit=0) v="MISSED";; *) v="harness ($rc)";; esac
-  echo "| $id | $prop | $v | $cls |" >> $out.tmp
+  python3 - "$d/result.json" "$id" "$prop" "$v" "$cls" "$(git rev-parse --short HEAD)" <<'PY'
+import json,sys,datetime
+p,id_,prop,v,cls,head=sys.argv[1:]
+json.dump({"seed":id_,"property":prop,"verdict":v,"first_class":cls,"verif_commit":head,"repo_head":"scratch worktree of /repo HEAD + patch","tier":"quick","when":datetime.datetime.utcnow().isoformat()+"Z"},open(p,"w"),indent=1)
+PY
   echo "$id $prop $v"
 done
-mv $out.tmp $out
+python3 - <<'PY'
+import json,glob
+rows=[json.load(open(f)) for f in sorted(glob.glob('/verif/seeded/*/result.json'))]
+out=["# Seeded changes vs checks (quick tier of the seed's own property; scratch worktree with the patch applied)","",
+     f"{sum(r['verdict']=='caught' for r in rows)} of {len(rows)} caught.","","| seed | property | verdict | first class reported | /verif commit |","|---|---|---|---|---|"]
+for r in rows: out.append(f"| {r['seed']} | {r['property']} | {r['verdict']} | {r['first_class'].replace('|','\\|')} | {r['verif_commit']} |")
+open('/verif/seeded/RESULTS.md','w').write("\n".join(out)+"\n")
+PY
